@@ -130,6 +130,7 @@ def main(ctx):
             if c["autofrag"]:
                 continue
             jobs.append({"kind": "coalesce", "cfg": c, "tier": tier})
+            jobs.append({"kind": "streammix", "cfg": c, "tier": tier})
             jobs.append({"kind": "duplex", "cfg": c, "tier": tier,
                          "bound": 3 if tier == "thorough" else 2})
         ctx.pmap(env, "props.c01:job", jobs, chunksize=1)
@@ -139,7 +140,7 @@ def main(ctx):
     ctx.coverage["distinct_nontrivial"] = int(ctx.counters["nontrivial"])
     for n in ("op_sequences", "segmentations", "messages_delivered", "compressed_frames",
               "masked_frames", "unmasked_frames", "fragmented_messages", "coalesce_execs",
-              "duplex_execs", "queued_writes"):
+              "duplex_execs", "queued_writes", "streammix_execs"):
         ctx.require(n)
 
 
@@ -529,6 +530,8 @@ def job(a):
         return _job_coalesce(a, env, seed)
     if kind == "duplex":
         return _job_duplex(a, env, seed)
+    if kind == "streammix":
+        return _job_streammix(a, env, seed)
     cfg, role, tier = a["cfg"], a["role"], a["tier"]
     light = a.get("light", False)
     stats = {"op_sequences": 0, "segmentations": 0, "nontrivial": 0, "messages_delivered": 0,
@@ -710,6 +713,95 @@ def _job_duplex(a, env, seed):
                       "messages_delivered": 4 * st["executions"]},
             "samples": [{"kind": "duplex", "cfg": _cfgid(cfg, "both"), "schedules": st["executions"],
                          "deviation_bound": a["bound"], "distinct_outcomes": len(outcomes)}]}
+
+
+def _job_streammix(a, env, seed):
+    """the streaming send API (beginMessage / beginMessageFrame / sendMessageFrameData in pieces /
+    endMessage) interleaved with frames ARRIVING on the same connection between the steps: after
+    every step the peer's next frame (empty message, ping, text, fragment) may be delivered first.
+    Both directions must come out intact: what the peer receives is the streamed message, what this
+    side receives are the peer's messages."""
+    from mc.core import explore
+    from ref import ws_frames as F
+    cfg = a["cfg"]
+    viol = []
+    cnt = {"n": 0}
+    outcomes = set()
+
+    def run_role(role):
+        def run(ch):
+            pair = build_pair(cfg).handshake()
+            snd = pair.side(role)
+            rcv = pair.s if role == "client" else pair.c
+            back = "s2c" if role == "client" else "c2s"
+            fwd = "c2s" if role == "client" else "s2c"
+            # what the peer will send towards the streaming side, one frame per delivery slot
+            peer_ops = [("msg", 0, True, None, False, False), ("ping", 0),
+                        ("msg", 7, False, None, False, False), ("msg", 40, True, 16, False, False)]
+            sent_back = []
+            for i, op in enumerate(peer_ops):
+                do_op(rcv.proto, rcv.proto.factory, op, 10 + i, seed, sent_back)
+            pair.collect()
+            backlog = bytes(pair.wire[back])
+            pair.wire[back].clear()
+            frames, _ = F.parse_frames(backlog)
+            slots = [backlog[f.start:f.end] for f in frames]
+
+            flags = {"ping_mid_frame": False}
+
+            def maybe_deliver():
+                if slots and ch.choose(2, "deliver-peer-frame"):
+                    seg = slots.pop(0)
+                    if (seg[0] & 0x0F) == 9 and snd.proto.send_state == snd.proto.SEND_STATE_INSIDE_MESSAGE_FRAME:
+                        flags["ping_mid_frame"] = True
+                    snd.feed(seg)
+            p = payload(100, True, 1, seed)
+            dnc = bool(cfg["compress"])
+            pr = snd.proto
+            pr.beginMessage(True, doNotCompress=dnc)
+            maybe_deliver()
+            pr.beginMessageFrame(60)
+            maybe_deliver()
+            pr.sendMessageFrameData(p[:25])
+            maybe_deliver()
+            pr.sendMessageFrameData(p[25:60])
+            maybe_deliver()
+            pr.beginMessageFrame(40)
+            maybe_deliver()
+            pr.sendMessageFrameData(p[60:])
+            maybe_deliver()
+            pr.endMessage()
+            while slots:
+                snd.feed(slots.pop(0))
+            pair.flush_timers()
+            pair.collect()
+            # pongs etc. written by the streaming side travel forward together with the message
+            pair.deliver(fwd)
+            pair.settle()
+            got_fwd = [(e[1], e[2]) for e in rcv.proto.rec if e[0] == "onMessage"]
+            got_back = [(e[1], e[2]) for e in snd.proto.rec if e[0] == "onMessage"]
+            ok = (got_fwd == [(p, True)] and got_back == [(x[0], x[1]) for x in sent_back]
+                  and not pair.escapes() and snd.proto.state == 3 and rcv.proto.state == 3)
+            return ok, (len(got_fwd), len(got_back), snd.proto.state, rcv.proto.state,
+                        "ping-mid-frame" if flags["ping_mid_frame"] else "-")
+        return run
+    for role in ("client", "server"):
+        def on_exec(choices, trace, res, _role=role):
+            cnt["n"] += 1
+            ok, o = res
+            outcomes.add(o)
+            if not ok and sum(1 for v in viol if v["sig"].endswith(o[4])) < 2:
+                viol.append({"sig": "C01|stream-interleaved-with-receive|%s|%s|%s" % (
+                    _role, "pmce" if cfg["compress"] else "plain", o[4]),
+                    "desc": "[%s fw=%s] schedule=%s outcome (fwd msgs, back msgs, states)=%s" % (
+                        _cfgid(cfg, _role), env.get("fw"), choices, o),
+                    "replay": {"env": {"fw": env.get("fw"), "nvx": str(env.get("nvx"))},
+                               "func": "props.c01:job", "arg": a}})
+        explore(run_role(role), bound=None if a["tier"] == "thorough" else 3, on_exec=on_exec)
+    return {"evals": cnt["n"], "viol": viol,
+            "stats": {"streammix_execs": cnt["n"], "nontrivial": cnt["n"], "messages_delivered": 4 * cnt["n"]},
+            "samples": [{"kind": "streammix", "cfg": _cfgid(cfg, "both"), "schedules": cnt["n"],
+                         "distinct_outcomes": len(outcomes)}]}
 
 
 def replay(a):
